@@ -106,8 +106,10 @@ def replay_word(inputs):
 
 
 def first_match_cases(rng, tier):
-    pats = ["/", "/a", "/a/{x}", "/a/{x:int}", "/{y:any}", "/a/b", "/{x}/b", "/a/{x:int}/{z}", "/a.b", "/a+b", "/(a)"]
-    paths = ["/", "/a", "/a/1", "/a/b", "/a/x/y", "/b", "", "/a/", "/axb", "/a.b", "/a+b", "/aab", "/(a)", "/a/1\n"]
+    pats = ["/", "/a", "/a/{x}", "/a/{x:int}", "/{y:any}", "/a/b", "/{x}/b", "/a/{x:int}/{z}", "/a.b", "/a+b", "/(a)",
+            "/a}}b", "/{{x", "/a}b/{x:int}"]        # literal braces
+    paths = ["/", "/a", "/a/1", "/a/b", "/a/x/y", "/b", "", "/a/", "/axb", "/a.b", "/a+b", "/aab", "/(a)", "/a/1\n",
+             "/a}}b", "/a}b", "/{{x", "/{x", "/a}b/7", "/ab/7"]
     tables = []
     for n in (1, 2, 3):
         allp = list(itertools.permutations(pats, n))
